@@ -621,7 +621,11 @@ class BusAuthenticator :
             return
 
         if response:
-            response = binascii.unhexlify(response.strip())
+            try:
+                response = binascii.unhexlify(response.strip())
+            except binascii.Error:
+                self.sendError(b'"Invalid hex encoding"')
+                return
 
         status, challenge = self.current_mech.step(response)
 
